@@ -69,6 +69,11 @@ NScen(nw) == Len(Weights(nw))
 \* directories) are fitted in every order of length 4; each fit is judged like a first call.
 HistoryKernels == {"user5", "user5b"}
 Histories == [1..4 -> HistoryKernels]
+\* One path whose CONTENT changes: "bad" = the file with one non-numeric cell (loading it fails part-way; whatever the
+\* library answers is accepted), "good" = the well-formed file.  Every use of the good content must give the result of
+\* a first call on that content - a kernel that failed to load must leave nothing behind.
+FileHistories == << <<"good">>, <<"bad", "good">>, <<"bad", "bad", "good">>, <<"good", "bad", "good">> >>
+FileStepJudged(state) == state = "good"
 Scenarios(nw, nr, r) == LET W == TLCEval(Weights(nw)) IN [k \in 1..Len(W) |-> Scenario(k, W, nr, r)]
 
 ---------------------------------------------------------------------------
@@ -121,21 +126,26 @@ SameOut(a, b) == SameSeq(a.w, b.w) /\ SameSeq(a.dist, b.dist) /\ SameSeq(a.cum, 
 
 \* q: [p, load : fed isotherm; lim : <<lo, hi>>; order; wk : kernel widths; K : sparse kernel rows on the window;
 \*     o0 : observation with order 0; ok : observation with q.order; op : observation (order q.order) of the isotherm
-\*     whose loadings outside the window were changed (load2); useK : FALSE when the pressures are not kernel rows
+\*     (p2, load2): the same points inside the window, but other loadings outside it and - when there is an upper limit -
+\*     further points beyond the kernel's pressure range appended above it (they lie outside the limits, so the result
+\*     must be that of the truncated isotherm, not a refusal); op.exc = TRUE when that call raised; useK : FALSE when the pressures are not kernel rows
 \*     (then K is empty and the kernel-weighted-sum clause is not evaluated)]
 Judge(q) ==
    LET win == Window(q.p, q.lim)
        n == Cardinality(win)
+       win2 == Window(q.p2, q.lim)
        limOk(o) == n >= 1 /\ o.lim[1] = MinS(win) - 1 /\ o.lim[2] = MaxS(win) - 1
+       limOk2(o) == n >= 1 /\ o.lim[1] = MinS(win2) - 1 /\ o.lim[2] = MaxS(win2) - 1
        lenOk(o) == Len(o.kl) = n
-       pairOk == /\ Len(q.load2) = Len(q.load)
-                 /\ \A i \in Idx(q.load) : (i \in win) => q.load2[i] = q.load[i]
+       \* the two isotherms coincide inside the limits (same points in the same order) and differ only outside
+       pairOk == /\ Len(q.load2) = Len(q.p2) /\ Cardinality(win2) = n /\ n >= 1
+                 /\ \A i \in win : LET i2 == MinS(win2) + (i - MinS(win)) IN i2 \in win2 /\ q.p2[i2] = q.p[i] /\ q.load2[i2] = q.load[i]
        goodRules(o) == {r \in Rules : CumIsIntegral(o, r)}
        rules0 == {r \in goodRules(q.o0) : WSumOk(q.o0, q.K, r)}
        rss == IF lenOk(q.o0) /\ n >= 1 THEN RSS(q.o0.kl, q.load, win) ELSE DZero
    IN [pair_wellformed |-> pairOk,
-       shape |-> ShapeOk(q.o0) /\ ShapeOk(q.ok) /\ ShapeOk(q.op),
-       limits |-> limOk(q.o0) /\ limOk(q.ok) /\ limOk(q.op) /\ lenOk(q.o0) /\ lenOk(q.ok) /\ lenOk(q.op),
+       shape |-> ShapeOk(q.o0) /\ ShapeOk(q.ok) /\ (q.op.exc \/ ShapeOk(q.op)),
+       limits |-> limOk(q.o0) /\ limOk(q.ok) /\ (q.op.exc \/ limOk2(q.op)) /\ lenOk(q.o0) /\ lenOk(q.ok) /\ (q.op.exc \/ lenOk(q.op)),
        nonneg |-> NonNeg(q.o0) /\ NonNeg(q.ok),
        cum_mono |-> CumMono(q.o0) /\ CumMono(q.ok),
        cum_integral |-> goodRules(q.o0) # {} /\ goodRules(q.ok) # {},
@@ -145,7 +155,7 @@ Judge(q) ==
        repro |-> DLeq(rss, RSSTol),
        rss |-> rss,
        order_invariant |-> SameSeq(q.o0.kl, q.ok.kl),
-       limits_only |-> SameOut(q.ok, q.op)]
+       limits_only |-> (~q.op.exc) /\ SameOut(q.ok, q.op)]
 
 \* refusal: any fed pressure above the largest kernel pressure, or negative, must give CalculationError
 \* (0 <= p < smallest kernel pressure is not judged: the library documents a zero row prepended for interpolation)
